@@ -1,7 +1,7 @@
 // corr runs the implementation built from /repo's current tree on generated inputs, writes the
 // inputs and observations as Coq terms (cases_*.v) for the model to be evaluated on, evaluates the
 // property's oracle directly on the observations, and writes result.json for the driver.
-package main
+package lib
 
 import (
 	"encoding/json"
@@ -9,7 +9,6 @@ import (
 	"fmt"
 	"os"
 	"path/filepath"
-	"sort"
 )
 
 type Failure struct {
@@ -67,29 +66,14 @@ func (c *Ctx) WriteCases(name string, content string) {
 	c.Res.CaseFiles = append(c.Res.CaseFiles, p)
 }
 
-type propFunc func(c *Ctx) error
-
-var registry = map[string]propFunc{}
-
-func register(id string, f propFunc) { registry[id] = f }
-
-func main() {
-	prop := flag.String("prop", "", "property id")
+// Main is the entry point shared by the per-property harness binaries (cmd/cNN).
+func Main(id string, f func(c *Ctx) error) {
+	prop := flag.String("prop", id, "property id")
 	tier := flag.String("tier", "quick", "quick|thorough")
 	seed := flag.Int64("seed", 1, "seed")
 	out := flag.String("out", "", "output directory")
 	replay := flag.String("replay", "", "replay file")
 	flag.Parse()
-	f, ok := registry[*prop]
-	if !ok {
-		ids := []string{}
-		for k := range registry {
-			ids = append(ids, k)
-		}
-		sort.Strings(ids)
-		fmt.Fprintf(os.Stderr, "unknown property %q; have %v\n", *prop, ids)
-		os.Exit(2)
-	}
 	if err := os.MkdirAll(*out, 0o755); err != nil {
 		panic(err)
 	}
